@@ -708,14 +708,21 @@ def pairwise_entry(chk, want='rows'):
                   factor=rng.choice([0.3, 0.0, 1.0, 0, 1.5, 2.5]), restricted_chars=rng.choice(['T_', '', '_']))
         if rng.random() < 0.3:
             kw['distance'] = rng.choice([True, False])
+        topts = {}
+        if isinstance(wa, str) and ' ' not in wa and ' ' not in wb and rng.random() < 0.5:
+            # the segmentation options of the constructor: the same spelling is segmented one way in one object and another way in the
+            # next (the pool of words is small, every word comes by with both settings in one process)
+            topts = rng.choice([dict(merge_vowels=False), dict(merge_geminates=False), dict(merge_vowels=False, merge_geminates=False),
+                                dict(semi_diacritics='hs')])
+            chk.hist['Pairwise: constructor with segmentation options'] += 1
         try:
-            p = Pairwise(copy.deepcopy(wa), copy.deepcopy(wb))
+            p = Pairwise(copy.deepcopy(wa), copy.deepcopy(wb), **topts)
             held = copy.deepcopy(p.tokens)
             p.align(**kw)
             tokA, tokB = held[0]
             # what the caller passed: a list is taken as it is, a string with blanks is split at them, a plain string is segmented
             for w_, which_ in ((wa, 0), (wb, 1)):
-                passed = list(w_) if isinstance(w_, (list, tuple)) else (w_.split(' ') if ' ' in w_ else ipa2tokens(w_))
+                passed = list(w_) if isinstance(w_, (list, tuple)) else (w_.split(' ') if ' ' in w_ else ipa2tokens(w_, **topts))
                 if want == 'rows' and list(held[0][which_]) != passed:
                     raise AssertionError('the object holds the segments %r for the input %r (passed / segmented independently: %r)' % (list(held[0][which_]), w_, passed))
             almA, almB, sim = p.alignments[0]
